@@ -112,6 +112,9 @@ SPEC = {
         "descriptor_tables_equal", "kind_count_from_declaration", "binding_kinds_counts_shared", "dx_vk_bindings_shared",
         "reflected_kinds_are_resources", "non_resource_global_refused_on_every_target",
         "binding_names_kinds_counts_shared_partial", "binding_names_not_shared",
+        "bindings_reported_without_pipeline", "bindings_mode_independent", "binding_kinds_counts_shared_in_every_mode",
+        "binding_names_kinds_counts_shared_in_every_mode_partial", "dx_vk_bindings_shared_in_every_mode",
+        "all_targets_same_stage_kinds_sizes_in_every_mode",
         "simplify_cbuffers_as_modelled", "msl_reflects_simplified_module", "kinds_counts_shared_through_simplify",
         "bindings_shared_through_simplify_partial", "cbuffer_block_one_binding_everywhere",
         "hlsl_target_sites_as_modelled", "hlsl_exports_differ_only_in_annotations", "dx_vk_differ_only_in_annotations",
